@@ -173,3 +173,18 @@ pub fn is_linear(s: &Sexp) -> bool {
     v.dedup();
     v.len() == n
 }
+
+/// The type annotation of every constant replaced by one fixed atom: corresponding constants of two
+/// answers to one query have the same type by typing (the Rust code never compares them either), so
+/// the "is an instance of" oracle must not tell terms apart by them.
+pub fn erase_const_types(s: &Sexp) -> Sexp {
+    match s {
+        Sexp::Atom(_) => s.clone(),
+        Sexp::List(xs) => {
+            if let Some(("const", [_, v])) = s.tagged() {
+                return tagged("const", vec![atom("_"), erase_const_types(v)]);
+            }
+            Sexp::List(xs.iter().map(erase_const_types).collect())
+        }
+    }
+}
